@@ -1,0 +1,31 @@
+//go:build verif
+
+package crdt
+
+// Contracts for the govc verifier (/verif). Comment-only.
+
+//@ spec func hostID(h host.Host) peer.ID = uf("hostID", "peer.ID", h)
+
+//@ extern host.Host.ID()
+//@   ensures res == hostID(self)
+
+// "Trust follows the configuration ... and follows later Trust/Distrust calls"
+//@ func (css *Consensus) IsTrustedPeer
+//@   property C07
+//@   ensures res <==> (css.config.TrustAll || pid == hostID(css.host) || in(any(pid), css.trustedPeers))
+//@   modifies nothing
+
+//@ func (css *Consensus) Distrust
+//@   property C07
+//@   ensures forall k any :: in(k, css.trustedPeers) <==> (in(k, old(css.trustedPeers)) && k != any(pid))
+//@   ensures css.config == old(css.config) && css.host == old(css.host)
+//@   ensures forall o *Consensus :: o != css ==> *o == old(*o)
+//@   modifies heap(Consensus)
+
+// the pubsub topic validator: a message is accepted iff its signer is trusted
+//@ closure Consensus.setup#1
+//@   property C07
+//@   ensures res <==> (css.config.TrustAll || uf("msgFrom", "peer.ID", msg) == hostID(css.host) || in(any(uf("msgFrom", "peer.ID", msg)), css.trustedPeers))
+
+//@ extern pubsub.Message.GetFrom()
+//@   ensures res == uf("msgFrom", "peer.ID", self)
